@@ -66,18 +66,27 @@ def sizeZero (t : Ty) : Bool :=
   | some l => l.get_size == 0
   | none => false
 
-/-- `Lowerer::lower_type` (lower.rs). `panic` = the final `ice!`. -/
+/-- bytes of a scalar leaf (its `IrType` has the size of the primitive) -/
+def scalarBytes : Ty → Nat
+  | .leaf _ s _ => s
+  | _ => 0
+
+/-- `Lowerer::lower_type` (lower.rs): the GENERATED function
+    (`RotoV.Gen.LayoutDecide.lower_type`, re-translated from the source on
+    every run) applied to this type's kind, its `layout_of` and its
+    `is_reference_type`; the class of the scalar `IrType` is completed with
+    the primitive's size. `panic` = the final `ice!`. -/
 def lowerType (t : Ty) : Res (Option IrT) :=
-  if sizeZero t then .ok none
-  else match t with
-    | .leaf .int s _ => .ok (some (.int s))
-    | .leaf .float s _ => .ok (some (.float s))
-    | .leaf .list _ _ | .leaf .rtCopy _ _ | .leaf .rtClone _ _ => .ok (some .pointer)
-    | _ =>
-      match isReferenceType t with
-      | none => .ok none
-      | some true => .ok (some .pointer)
-      | some false => .panic
+  match Gen.LayoutDecide.lower_type t.kind (layoutOf t) (isReferenceType t) with
+  | .panic => .panic
+  | .ok none => .ok none
+  | .ok (some .int) => .ok (some (.int (scalarBytes t)))
+  | .ok (some .float) => .ok (some (.float (scalarBytes t)))
+  | .ok (some .pointer) => .ok (some .pointer)
+
+/-- the type has no IR value (`lower_type` returns `None` at its first
+    statement): zero-sized and not a registered type -/
+def noIrValue (t : Ty) : Bool := t.kind != .runtime && sizeZero t
 
 /-- `call_clone_function(from = val+off, to = ret+off, ty)`; a 0-byte
     `memcpy` is not emitted -/
